@@ -162,8 +162,6 @@ impl PreModel {
                 })
                 .collect::<Vec<_>>(),
         )?;
-        context.set_static_domain(domain);
-        context.set_static_compound_domain(self.static_compound_variables_domain());
         for constant in make_std_constants() {
             constant.type_check(&mut context, &fn_context)?
         }
@@ -176,6 +174,11 @@ impl PreModel {
         for domain in &self.domains {
             domain.type_check(&mut context, &fn_context)?;
         }
+        // decision variables come into scope after the constants and the domain
+        // declarations: neither a constant nor a domain bound can refer to one
+        // (the transformer evaluates both before any variable exists)
+        context.set_static_domain(domain);
+        context.set_static_compound_domain(self.static_compound_variables_domain());
         self.type_check(&mut context, &fn_context)
     }
     pub fn create_token_type_map(
